@@ -12,9 +12,18 @@ from loopfam import drv as _loopdrv, GENS as _GENS
 _FLOOD = _loopdrv("scenario:async-flood", n=1)
 _FLOOD["sites"] = ["^outbound-async-order$", "^async-callback$", "^loop-stuck$", "^engine-start$"]
 
+# the connection-level half of "carried out exactly once, callback exactly once": the real engine's request
+# functions (AsyncWrite, AsyncWritev, Wake, Close, CloseWithCallback, from callbacks and from other goroutines, on
+# open, closing and already closed connections) under the stream and client runs of the loop driver, judged by the
+# callback oracles (twice / never) and the model of the loop
+_REQS = _loopdrv("stream", n=40)
+_REQS["sites"] = ["^outbound-async-order$", "^async-callback$", "^loop-stuck$", "^engine-start$"]
+_REQC = _loopdrv("client", n=20)
+_REQC["sites"] = list(_REQS["sites"])
+
 PROP = dict(
     gens=_GENS,
-    drivers=[_FLOOD,
+    drivers=[_FLOOD, _REQS, _REQC,
         dict(cmd="drv-wakeup", family="wakeup", shrink=False,
              unix_swap=["pkg/netpoll/poller_epoll_default.go"],
              swaps=[["pkg/netpoll/poller_epoll_default.go", _VATOMIC],
